@@ -94,6 +94,8 @@ structure AddSpec (cfg : LoopCfg) (limit : Nat) (l : List Member) (n : Nat) (st 
   cap : cfg.checkLimit = true → n ≤ limit → n' ≤ limit
   /-- with `rejectDup`, success means no listed address was stored or repeated -/
   fresh : cfg.rejectDup = true → (∀ x ∈ keys l, x ∉ keys st) ∧ (keys l).Nodup
+  /-- every listed address passed `addr_validate` -/
+  valid : ∀ x ∈ keys l, validAddr x = true
 
 /-- one-step unfolding of `addLoop` in a shape convenient for case analysis -/
 theorem addLoop_cons (cfg : LoopCfg) (limit : Nat) (m : Member) (ms : List Member) (n : Nat) (st : List Member) (a : Nat) :
@@ -116,7 +118,7 @@ theorem addLoop_spec (cfg : LoopCfg) (limit : Nat) :
     intro n st a n' st' a' hs h
     simp only [addLoop, Except.ok.injEq, Prod.mk.injEq] at h
     obtain ⟨rfl, rfl, rfl⟩ := h
-    exact ⟨hs, rfl, rfl, by simp [keys], fun _ _ => rfl, Nat.le_refl _, fun _ h => h, fun _ => ⟨by simp [keys], by simp [keys]⟩⟩
+    exact ⟨hs, rfl, rfl, by simp [keys], fun _ _ => rfl, Nat.le_refl _, fun _ h => h, fun _ => ⟨by simp [keys], by simp [keys]⟩, by simp [keys]⟩
   | cons m ms ih =>
     intro n st a n' st' a' hs h
     rw [addLoop_cons] at h
@@ -136,7 +138,8 @@ theorem addLoop_spec (cfg : LoopCfg) (limit : Nat) :
       rw [if_neg hrej] at h
       have r := ih n st a n' st' a' hs h
       have hin : m.1 ∈ keys st := (hasM_iff _ _).mp hhas
-      refine ⟨r.sorted, r.count, r.added, ?_, r.kept, r.mono, r.cap, ?_⟩
+      have hvm : validAddr m.1 = true := by simpa using c2
+      refine ⟨r.sorted, r.count, r.added, ?_, r.kept, r.mono, r.cap, ?_, ?_⟩
       · intro x; rw [r.mem x, keys_cons, List.mem_cons]
         constructor
         · rintro (h1 | h1)
@@ -147,11 +150,21 @@ theorem addLoop_spec (cfg : LoopCfg) (limit : Nat) :
           · exact Or.inl (h1 ▸ hin)
           · exact Or.inr h1
       · intro hr; exact absurd hr hrej
+      · intro x hx; rw [keys_cons, List.mem_cons] at hx
+        rcases hx with hx | hx
+        · rw [hx]; exact hvm
+        · exact r.valid x hx
     · rw [if_neg hhas] at h
       have hnot : m.1 ∉ keys st := (hasM_false_iff _ _).mp (by simpa using hhas)
       have r := ih (n + 1) (saveM m st) (a + 1) n' st' a' (sorted_saveM m hs) h
       have hl := length_saveM_new m st hnot
-      refine ⟨r.sorted, ?_, ?_, ?_, ?_, ?_, ?_, ?_⟩
+      have hvm : validAddr m.1 = true := by simpa using c2
+      refine ⟨r.sorted, ?_, ?_, ?_, ?_, ?_, ?_, ?_, ?_⟩
+      rotate_right
+      · intro x hx; rw [keys_cons, List.mem_cons] at hx
+        rcases hx with hx | hx
+        · rw [hx]; exact hvm
+        · exact r.valid x hx
       · have := r.count; omega
       · have := r.added; omega
       · intro x; rw [r.mem x, mem_keys_saveM, keys_cons, List.mem_cons]
@@ -222,6 +235,21 @@ theorem saveAll_spec : ∀ (l st st' : List Member), SortedKeys st → saveAll l
       · exact Or.inl (Or.inr h1)
       · exact Or.inl (Or.inl h1)
       · exact Or.inr h1
+
+theorem saveAll_valid : ∀ (l st st' : List Member), saveAll l st = .ok st' → ∀ x ∈ keys l, validAddr x = true := by
+  intro l
+  induction l with
+  | nil => intro st st' _ x hx; simp [keys] at hx
+  | cons m ms ih =>
+    intro st st' h x hx
+    rw [saveAll] at h
+    by_cases c : (!validAddr m.1) = true
+    · rw [if_pos c] at h; exact absurd h (by simp)
+    rw [if_neg c] at h
+    rw [keys_cons, List.mem_cons] at hx
+    rcases hx with hx | hx
+    · rw [hx]; simpa using c
+    · exact ih _ _ h x hx
 
 theorem saveAll_fresh_length {l st' : List Member} (h : saveAll l [] = .ok st') (hl : SortedKeys l) :
     SortedKeys st' ∧ st'.length = l.length ∧ ∀ x, x ∈ keys st' ↔ x ∈ keys l := by
